@@ -66,11 +66,14 @@ impl Sim {
                 }
             }
             Target::Finished(k) => {
-                let f = self.finished();
-                if f.is_empty() {
+                // ids the client has used and that no longer (or never) await a response:
+                // finished requests and the client's own indications
+                let mut pool: Vec<[u8; 12]> = self.finished().iter().map(|i| self.reqs[*i].tid).collect();
+                pool.extend(self.ind_tids.iter().copied());
+                if pool.is_empty() {
                     [0xDD; 12]
                 } else {
-                    self.reqs[f[*k as usize % f.len()]].tid
+                    pool[*k as usize % pool.len()]
                 }
             }
             Target::Unknown(t) => *t,
@@ -316,6 +319,7 @@ impl Sim {
                 if !self.tids.insert(tid) {
                     out.push(finding(&["C13"], format!("transaction id {} was used before", fmt_tid(&tid))));
                 }
+                self.ind_tids.push(tid);
                 match events.as_slice() {
                     [Ev::Packet(p)] => {
                         if !self.desync {
